@@ -144,9 +144,14 @@ static void check_case(vg::Src& s, vh::Ctx& c)
                         ++i;
                     c.fail("snapshot-basins", st + "node " + std::to_string(i) + ": snapshot label " + std::to_string(b1[i]) + " prefix graph label " + std::to_string(b2[i]));
                 }
-                if (sg.outlets() != sn.prefix.graph->outlets())
+                auto sorted = [](std::vector<size_t> v)
+                {
+                    std::sort(v.begin(), v.end());
+                    return v;
+                };
+                if (sorted(sg.outlets()) != sorted(sn.prefix.graph->outlets()))
                     c.fail("snapshot-outlets", st);
-                if (sg.pits() != sn.prefix.graph->pits())
+                if (sorted(sg.pits()) != sorted(sn.prefix.graph->pits()))
                     c.fail("snapshot-pits", st + "pits() " + vg::describe_set(sg.pits()) + " vs " + vg::describe_set(sn.prefix.graph->pits()));
             }
             for (int kind : { va::KERNEL_BREADTH_UPSTREAM, va::KERNEL_DEPTH_UPSTREAM, va::KERNEL_ANY })
